@@ -101,6 +101,14 @@ class C19(vlib.Check):
                         yield ('ss 3 new,0;new,1;appc,0,97,%d;%s;masg,1,0;appc,1,98,%d;app,1,7a;app,0,79;del,0;del,1 failat=%d@5'
                                % (cap_fill, shrink, grow, k))
 
+        # a growth request far beyond what any allocator grants (count >= 2^32), made to fail: the request must
+        # reach the allocator undiminished (an implementation that narrows the size computes a small or no growth,
+        # does not fail, and writes the full count)
+        for fill in (0, 5, stk - 1, stk + 7, 3 * stk):
+            for cnt in (2 ** 32, 2 ** 32 + 16, 5 * 2 ** 30 + 7, 2 ** 40, 2 ** 62 + 3):
+                ops = ['new,0'] + (['appc,0,97,%d' % fill] if fill else []) + ['appc,0,98,%d' % cnt, 'app,0,7a', 'trunc,0,2', 'app,0,79', 'del,0']
+                yield 'ss 3 %s failat=0@%d' % (';'.join(ops), 2 if fill else 1)
+
     ALLOC_CONST = ['substr', 'left', 'right', 'upper', 'lower', 'trim', 'plus', 'replace', 'replace_self', 'utf8',
                    'before_first', 'after_last', 'copy']
 
